@@ -44,6 +44,13 @@ def parseStrs : Nat → List String → Option (List (List Char) × List String)
     some (cs :: xs, rest')
   | _, _ => none
 
+def sortStrings (xs : List String) : List String :=
+  xs.foldl (fun acc x =>
+    let rec ins : List String → List String
+      | [] => [x]
+      | y :: ys => if x < y then x :: y :: ys else y :: ins ys
+    ins acc) []
+
 def showBool (b : Bool) : String := if b then "1" else "0"
 def showOptNat : Option Nat → String
   | none => "-"
